@@ -9,7 +9,10 @@ use serde_json::json;
 fn run_all(scns: Vec<Scenario>, mk: &MkMon, tier: Tier) -> Vec<ExploreResult> {
     // scenarios run one after another; each exploration uses all cores for its frontier
     let opts = Opts::for_tier(tier);
-    scns.into_iter().map(|s| explore(s, mk, &opts)).collect()
+    // debugging aid (never set by the registered commands): run only the scenarios whose name
+    // contains $VERIF_ONLY
+    let only = std::env::var("VERIF_ONLY").ok();
+    scns.into_iter().filter(|s| only.as_ref().map_or(true, |o| s.name.contains(o.as_str()))).map(|s| explore(s, mk, &opts)).collect()
 }
 
 pub fn replay_e1(args: &Args, mk: &MkMon) -> Report {
@@ -110,6 +113,18 @@ fn c02_scenarios(tier: Tier) -> Vec<Scenario> {
             }
         }
     }
+    // segment sizes at and below the size of one NAK segment request (2 x 4 octets of scope plus
+    // 2 x 4 per request): how many requests "fit" is then 1, 0 or negative
+    for seg in tier.pick(vec![8u16, 4], vec![12u16, 8, 7, 4, 1]) {
+        let size = (2 * seg as u64 + 1).min(17);
+        let mut s = Scenario::base(&format!("c02 ack seg={} size={} nak=def0 F=1 do", seg, size));
+        s.seg = seg;
+        s.file_size = Some(size);
+        s.faults = 1;
+        s.k_drop = true;
+        s.k_overtake = true;
+        scns.push(s);
+    }
     scns
 }
 
@@ -144,7 +159,7 @@ fn with_conformance(mut rep: Report, modes: &[(bool, bool)]) -> Report {
     rep
 }
 
-const GEN: [&str; 4] = ["panic", "codec", "deadlock", "livelock"];
+const GEN: [&str; 5] = ["panic", "codec", "deadlock", "livelock", "spin"];
 
 fn mode_grid(tier: Tier) -> Vec<(bool, bool)> {
     // (acknowledged, closure)
@@ -294,6 +309,42 @@ pub fn c03(args: &Args) -> Report {
         p.blackout = vec![LinkId::SR, LinkId::RS];
         scns.push(p);
     }
+    // immediate procedure, three segments: a gap requested and filled, the NAK timer expiring with
+    // nothing left to ask for, then a cancel at the receiver with file data still on its way
+    {
+        let mut p = Scenario::base("c03 ack nak=imm0 size=32 max_count=1 cancel@R + blackout R->S + F=2 ot");
+        p.nak_immediate = true;
+        p.max_count = 1;
+        p.blackout = vec![LinkId::RS];
+        p.file_size = Some(32);
+        p.user = vec![(Side::R, UserOp::Cancel, 1)];
+        p.faults = 2;
+        p.k_overtake = true;
+        p.k_delay = true;
+        scns.push(p);
+    }
+    if args.tier == Tier::Thorough {
+        // the same crossing for every NAK procedure and either cancelling entity
+        for (imm, delay) in naks(args.tier) {
+            for by in [Side::S, Side::R] {
+                let nm = format!("{}{}", if imm { "imm" } else { "def" }, delay);
+                if imm && delay == 0 && by == Side::R {
+                    continue; // the scenario above
+                }
+                let mut p = Scenario::base(&format!("c03 ack nak={} size=32 max_count=1 cancel@{:?} + blackout R->S + F=2 ot", nm, by));
+                p.nak_immediate = imm;
+                p.nak_delay_s = delay;
+                p.max_count = 1;
+                p.file_size = Some(32);
+                p.user = vec![(by, UserOp::Cancel, 1)];
+                p.faults = 2;
+                p.k_overtake = true;
+                p.k_delay = true;
+                p.blackout = vec![LinkId::RS];
+                scns.push(p);
+            }
+        }
+    }
     // prompts in unacknowledged mode with closure (a prompt there is useless, but a user may issue it)
     for op in [UserOp::PromptNak, UserOp::PromptKeepAlive] {
         let mut p = Scenario::base(&format!("c03 unack+closure max_count=2 {:?} + blackout", op));
@@ -316,6 +367,18 @@ pub fn c03(args: &Args) -> Report {
         p.k_drop = true;
         p.k_dup = true;
         p.blackout = vec![LinkId::RS];
+        scns.push(p);
+    }
+    // a segment size below the size of one NAK segment request: the receiver must still get
+    // somewhere (or give up in bounded time) when something is missing
+    for seg in args.tier.pick(vec![8u16], vec![8u16, 5]) {
+        let mut p = Scenario::base(&format!("c03 ack seg={} size=9 max_count=2 F=1 d + blackout", seg));
+        p.seg = seg;
+        p.max_count = 2;
+        p.file_size = Some(9);
+        p.faults = 1;
+        p.k_drop = true;
+        p.blackout = vec![LinkId::RS, LinkId::SR];
         scns.push(p);
     }
     let res = run_all(scns, mk, args.tier);
@@ -466,6 +529,65 @@ pub fn c20(args: &Args) -> Report {
     with_conformance(fold(res, &["panic", "codec"], 0, json!({})), &[(true, false), (false, true)])
 }
 
+/// C09 = the segment list against its reference model (E3) + the receiver's account at protocol
+/// level (E1), where a peer may also send file data beyond the size its EOF announces
+pub fn c09(args: &Args) -> Report {
+    let mk: &MkMon = &|_s: &Scenario| Box::new(mons::C09::default());
+    if let Some(p) = &args.replay {
+        let v: serde_json::Value = serde_json::from_str(&std::fs::read_to_string(p).expect("replay file")).unwrap();
+        if v["case"]["engine"] == "seq-segments" {
+            return crate::seq_segments::run(args);
+        }
+        return replay_e1(args, mk);
+    }
+    let mut scns = vec![];
+    for null in [true, false] {
+        for (imm, nm) in [(false, "def0"), (true, "imm0")] {
+            if args.tier == Tier::Quick && imm && !null {
+                continue;
+            }
+            // 20 bytes in segments of 16: [0,16) [16,20). Injected: inside, overlapping both
+            // segments, straddling the end of the file, wholly beyond it.
+            let mut s = Scenario::base(&format!("c09 ack {} size=20 nak={} F=1 do + injected file data x{}", if null { "null" } else { "modular" }, nm, args.tier.pick(1, 2)));
+            s.file_size = Some(20);
+            s.null_checksum = null;
+            s.nak_immediate = imm;
+            s.faults = 1;
+            s.k_drop = true;
+            s.k_overtake = true;
+            s.inject = vec![
+                InjectSpec::Data { offset: 4, len: 8 },
+                InjectSpec::Data { offset: 12, len: 6 },
+                InjectSpec::Data { offset: 18, len: 6 },
+                InjectSpec::Data { offset: 20, len: 4 },
+                InjectSpec::Data { offset: 28, len: 4 },
+            ];
+            s.inject_budget = args.tier.pick(1, 2);
+            scns.push(s);
+        }
+    }
+    let mut u = Scenario::base("c09 unack null size=20 F=1 do + injected file data x1");
+    u.ack = false;
+    u.file_size = Some(20);
+    u.null_checksum = true;
+    u.faults = 1;
+    u.k_drop = true;
+    u.k_overtake = true;
+    u.inject = vec![InjectSpec::Data { offset: 12, len: 6 }, InjectSpec::Data { offset: 20, len: 4 }];
+    u.inject_budget = 1;
+    scns.push(u);
+    let res = run_all(scns, mk, args.tier);
+    let e1 = fold(res, &["panic", "codec"], 0, json!({}));
+    let mut rep = crate::seq_segments::run(args);
+    rep.violations.extend(e1.violations);
+    rep.machinery_errors.extend(e1.machinery_errors);
+    rep.assumptions.extend(e1.assumptions);
+    if let Some(o) = rep.coverage.as_object_mut() {
+        o.insert("protocol_level".into(), e1.coverage);
+    }
+    rep
+}
+
 pub fn c10(args: &Args) -> Report {
     let mk: &MkMon = &|_s: &Scenario| Box::new(mons::C10::default());
     if args.replay.is_some() {
@@ -544,7 +666,7 @@ pub fn c19(args: &Args) -> Report {
     s.k_drop = true;
     scns.push(s);
     let res = run_all(scns, mk, args.tier);
-    with_conformance(fold(res, &["panic", "codec", "livelock"], 0, json!({})), &[(true, false), (false, false)])
+    with_conformance(fold(res, &["panic", "codec", "livelock", "spin"], 0, json!({})), &[(true, false), (false, false)])
 }
 
 fn nak_alphabet(size: u64, seg: u64, tier: Tier) -> Vec<InjectSpec> {
@@ -617,6 +739,13 @@ pub fn c07(args: &Args) -> Report {
     u.faults = 1;
     u.k_drop = true;
     scns.push(u);
+    // the source name is a symbolic link: sizes stated must be those of the data, not of the link
+    let mut l = Scenario::base("c07 ack size=33 source is a symbolic link F=1 d");
+    l.file_size = Some(33);
+    l.src_symlink = true;
+    l.faults = 1;
+    l.k_drop = true;
+    scns.push(l);
     let mut c = Scenario::base("c07 ack crc size=17 F=1 d");
     c.crc = true;
     c.file_size = Some(17);
